@@ -2084,10 +2084,28 @@ BTree_pop(BTree *self, PyObject *args)
     }
 
     /* No default given.  The only difference in this case is the error
-    * message, which depends on whether the tree is empty.
+    * message, which depends on whether the tree is empty.  Looking at the
+    * tree may have to load its first bucket, i.e. run arbitrary code in the
+    * data manager, so the pending KeyError is put aside meanwhile.
     */
-    if (BTree_length_or_nonzero(self, 1) == 0) /* tree is empty */
-        PyErr_SetString(PyExc_KeyError, "pop(): BTree is empty");
+    {
+        PyObject *exc_type, *exc_value, *exc_tb;
+        int nonzero;
+
+        PyErr_Fetch(&exc_type, &exc_value, &exc_tb);
+        nonzero = BTree_length_or_nonzero(self, 1);
+        if (nonzero > 0)
+            PyErr_Restore(exc_type, exc_value, exc_tb);
+        else
+        {
+            Py_XDECREF(exc_type);
+            Py_XDECREF(exc_value);
+            Py_XDECREF(exc_tb);
+            if (nonzero == 0) /* tree is empty */
+                PyErr_SetString(PyExc_KeyError, "pop(): BTree is empty");
+            /* else:  loading failed, and that error is reported */
+        }
+    }
     return NULL;
 }
 
